@@ -62,6 +62,15 @@ pub fn gen_ct(t: &mut Tape, cfg: &CalcCfg, size: usize) -> CT {
     } else {
         let l = 1 + t.choose(size - 1);
         let name = if !cfg.rational_only && t.chance(cfg.nondiff_pct) { *t.pick(&NONDIFF_BIN) } else { *t.pick(&DIFF_BIN) };
+        if name == "^" && !cfg.rational_only && size >= 3 && t.chance(15) {
+            // a power of a power with an even inner exponent: (a^2)^1.5 is |a|^3, not a^3
+            // often directly a variable: such a base is negative at half of the signed points
+            let inner = if t.chance(50) { CT::Var(t.choose(cfg.nvars)) } else { gen_ct(t, cfg, size - 2) };
+            let even = ["2", "4", "2.0"][t.choose(3)];
+            let outer = ["1.5", "0.5", "2.5", "3", "1.25"][t.choose(5)];
+            let base = CT::Bin("^", Box::new(inner), Box::new(CT::Num(even.to_string())));
+            return CT::Bin("^", Box::new(base), Box::new(CT::Num(outer.to_string())));
+        }
         if name == "^" && (cfg.rational_only || t.chance(50)) {
             // literal integer exponent
             let e = ["2", "3", "1", "0", "2.0", "4"][t.choose(6)];
@@ -585,7 +594,13 @@ pub fn eval_ct<T: Num + Bounded>(t: &CT, vars: &[T], ok: &mut bool) -> T {
     if !r.defined() || !(r.max_abs() <= BOUND) {
         *ok = false;
     }
-    r.perturb()
+    // noise (conditioning estimate) only on the results of operations: literals and variables are
+    // exact, and a perturbed literal exponent would no longer be an integer
+    if matches!(t, CT::Un(..) | CT::Bin(..)) {
+        r.perturb()
+    } else {
+        r
+    }
 }
 
 pub fn close(a: f64, b: f64, tol: f64) -> bool {
